@@ -114,6 +114,37 @@ Proof. intros H Hx Hd Hpos. unfold std_vjp, std_jvp.
   rewrite (map_ext _ (fun y => (g / sqrt (rvar d x) / rdenom d x) * y)) by (intros; field; split; assumption).
   rewrite dot_scaled. field. split; assumption. Qed.
 
+(* np.linalg.norm (2-norm of a vector, Frobenius norm of a matrix): at x <> 0 *)
+Notation rsumsq := (sumsq R 0 Rplus Rmult).
+Notation rnorm_vjp := (norm_vjp R Rmult Rdiv).
+Notation rnorm_jvp := (norm_jvp R 0 Rplus Rmult Rdiv).
+
+Lemma sumsq_ssq x : rsumsq x = ssq 0 x.
+Proof. unfold sumsq, ssq. f_equal. rewrite map_map. apply map_ext. intros; ring. Qed.
+
+Lemma cross0 : forall x v, length x = length v -> cross 0 0 x v = rdot v x.
+Proof. unfold cross, kdot. induction x as [|y x IH]; intros [|w v] H; simpl in *; try discriminate; [reflexivity|].
+  rewrite IH by lia. ring. Qed.
+
+Theorem norm_jvp_exact x v : length x = length v -> 0 < rsumsq x ->
+    is_derive (fun t => sqrt (rsumsq (line x v t))) 0 (rnorm_jvp x v (sqrt (rsumsq x))).
+Proof. intros H Hpos.
+  apply (is_derive_ext (fun t => sqrt (rsumsq x + 2 * t * rdot v x + t * t * rsumsq v))).
+  - intros t. f_equal. rewrite !sumsq_ssq.
+    replace (ssq 0 (line x v t)) with (ssq (0 + t * 0) (line x v t)) by (f_equal; ring).
+    rewrite ssq_line by assumption. rewrite cross0 by assumption. reflexivity.
+  - unfold norm_jvp. set (A := rsumsq x) in *. set (C := rdot v x). set (B := rsumsq v).
+    assert (E : A + 2 * 0 * C + 0 * 0 * B = A) by ring.
+    auto_derive.
+    + rewrite E. exact Hpos.
+    + rewrite E. assert (Hs : sqrt A <> 0) by (apply Rgt_not_eq, sqrt_lt_R0; exact Hpos). field. exact Hs. Qed.
+
+Theorem norm_vjp_exact x v g : length x = length v -> 0 < rsumsq x ->
+    rdot (rnorm_vjp x (sqrt (rsumsq x)) g) v = g * rnorm_jvp x v (sqrt (rsumsq x)).
+Proof. intros H Hpos. unfold norm_vjp, norm_jvp.
+  assert (Hs : sqrt (rsumsq x) <> 0) by (apply Rgt_not_eq, sqrt_lt_R0; exact Hpos).
+  rewrite dot_scaled. field. exact Hs. Qed.
+
 (* np.prod *)
 Fixpoint dprod (x v : list R) : R :=
   match x, v with
